@@ -99,3 +99,38 @@ def ps3_tree(rng, title_id="BLES01234", extra_before=0, extra_after=0):
             srv.fnode(["d", "PS3_GAME", "ICON0.PNG"], 2049, cid="icon", mtime=t + 4),
             param_sfo(["d", "PS3_GAME", "PARAM.SFO"], title_id, t + 6, extra_before, extra_after),
             srv.fnode(["d", "PS3_DISC.SFB"], 1536, cid="sfb", mtime=t + 7)]
+
+
+def exact_fill_tree(target, joliet, with_subdir=True):
+    """A directory whose records (in the primary or the Joliet hierarchy) add up to exactly `target` bytes:
+    '.' and '..' are 34 each; a primary record is 33 + n (+1 if n even), a Joliet record 34 + 2n for an n-character name."""
+    def rec(n):
+        return 34 + 2 * n if joliet else 33 + n + (1 if n % 2 == 0 else 0)
+    nodes = [srv.dnode(["d"], 1500000000), srv.dnode(["d", "X"], 1500000001)]
+    cur = ["d", "X"]
+    total = 68
+    names = []
+    if with_subdir:
+        names.append(("S", True))
+        total += rec(1)
+    i = 0
+    while target - total - rec(2) >= rec(1):
+        names.append(("%s%s" % ("ABCDEFGHIJKLMNOPQRSTUVWXYZ"[i // 26], "abcdefghijklmnopqrstuvwxyz"[i % 26]), False))
+        total += rec(2)
+        i += 1
+    rest = target - total
+    n = 1
+    while rec(n) < rest:
+        n += 1
+    if rec(n) == rest:
+        names.append(("z" * n, False))
+        total += rest
+    for k, (nm, isdir) in enumerate(names):
+        if isdir:
+            nodes.append(srv.dnode(cur + [nm], 1500000100 + k))
+            nodes.append(srv.fnode(cur + [nm, "in.bin"], 5, cid="xin", mtime=1500000200))
+        else:
+            nodes.append(srv.fnode(cur + [nm], 3, cid="x3", mtime=1500000300 + k))
+    nodes.append(srv.dnode(["d", "Y"], 1500000002))
+    nodes.append(srv.fnode(["d", "Y", "after.bin"], 2049, cid="yafter", mtime=1500000003))
+    return nodes, total
